@@ -199,6 +199,27 @@ async def run_case(ctx, rng, index):
                     ctx.violation("invalid-subscription-not-single-error", "%s: %s" % (badkind, X.jdump(gotb)[:300]), case)
                 if wb.source_log or wb.calls:
                     ctx.violation("source-started-for-invalid-request", "%s: %s" % (badkind, wb.source_log[:2]), case)
+            # a later INVALID document that reuses the name of a fragment already seen valid on this engine: the fragment
+            # now contributes two root fields
+            if req.op.selset and req.op.selset[0].kind == "spread":
+                import copy
+                d2 = copy.deepcopy(req.doc)
+                d2.frags[req.op.selset[0].name].selset.append(docgen.FieldSel("__typename", alias="secondRoot_"))
+                docgen.print_doc(d2, rng, {"multiline": False, "nl": "\n", "shorthand": True})
+                bad = X.Request(d2, d2.text, req.op, req.variables, req.wseed, False, req.pass_opname)
+                wb = world_mod.World(s, req.wseed)
+                wb.events = ["obj", "obj"]
+                try:
+                    gotb = await consume(b.engine, bad, wb)
+                    st.inc("evaluations")
+                    st.inc("invalid_requests_reusing_a_fragment_name")
+                    if len(gotb) != 1 or gotb[0].get("data") is not None or not gotb[0].get("errors"):
+                        ctx.violation("invalid-subscription-not-single-error", "two root fields through reused fragment name: %s" % X.jdump(gotb)[:300],
+                                      dict(case, query=d2.text))
+                    if wb.source_log or wb.calls:
+                        ctx.violation("source-started-for-invalid-request", "reused fragment name: %s" % (wb.source_log[:2],), dict(case, query=d2.text))
+                except Exception as e:  # noqa
+                    ctx.violation("subscribe-raised", "invalid request (reused fragment name): %r" % e, case)
             if len(events) >= 2:
                 st.distinct("nontrivial", (b.sdl, req.text, canon(req.variables), req.wseed, tuple(events), sorted(faults.items())))
             st.sample({"query": req.text[:500], "events": events, "faults": case["faults"], "responses": X.jdump(got)[:600]}, limit=2)
